@@ -3,7 +3,9 @@ package checks
 import (
 	"bytes"
 	"fmt"
+	"github.com/titpetric/vuego/markdown"
 	"reflect"
+	"sort"
 	"strings"
 	"testing/fstest"
 	"time"
@@ -210,7 +212,73 @@ func (c *c10Case) Run(ctx *core.Ctx) {
 		c.runClock(ctx)
 	case "files":
 		c.runFiles(ctx)
+	case "markdown":
+		c.runMarkdown(ctx)
 	}
+}
+
+// c10Docs: Markdown documents whose constructs make a parser keep something: link reference
+// definitions, headings (generated ids), tables, lists, raw HTML, front-matter.
+var c10Docs = map[string]string{
+	"def":      "[docs]: https://example.com/private \"Internal\"\n\nSee [docs] and [the docs][docs].\n",
+	"use":      "See [docs] for more, and [other][docs].\n",
+	"def2":     "[docs]: https://example.org/public\n[Docs2]: /two\n\nRead [docs], [docs2].\n",
+	"head":     "# Title\n\n## Title\n\ntext\n",
+	"head2":    "# Title\n\npara\n\n# Other\n",
+	"table":    "| a | b |\n|:--|--:|\n| 1 | 2 |\n",
+	"list":     "1. one\n2. two\n\n- [x] done\n- [ ] open\n",
+	"html":     "<div class=\"raw\">\n\n*inside*\n\n</div>\n\ntext & <b>bold</b>\n",
+	"fm":       "---\ntitle: Doc\n---\n\n# Title\n\n[docs]\n",
+	"fmdef":    "---\ntitle: Other\n---\n\n[docs]: /from-front-matter-doc\n\n[docs]\n",
+	"code":     "```go\nx := 1\n```\n\n    indented [docs]\n",
+	"autolink": "<https://example.com> and https://example.net and ~~gone~~\n",
+	"emptydoc": "",
+	"imgdef":   "![alt][pic]\n\n[pic]: /img.png \"Pic\"\n",
+	"imguse":   "![alt][pic] and [pic]\n",
+}
+
+var c10DocNames = func() []string {
+	var ns []string
+	for k := range c10Docs {
+		ns = append(ns, k)
+	}
+	sort.Strings(ns)
+	return ns
+}()
+
+// runMarkdown: every document rendered after a history of other documents on one Markdown
+// engine gives the bytes it gives on a new engine (RenderBytes, and Load + Render from files).
+func (c *c10Case) runMarkdown(ctx *core.Ctx) {
+	ctx.NonTrivial()
+	fsys := fstest.MapFS{}
+	for n, src := range c10Docs {
+		fsys[n+".md"] = &fstest.MapFile{Data: []byte(src), ModTime: baseTime}
+	}
+	render := func(m *markdown.Markdown, doc string) string {
+		var buf bytes.Buffer
+		ctx.Eval(1)
+		if c.Entry == "load" {
+			d, err := m.Load(doc + ".md")
+			if err != nil {
+				return res("", err)
+			}
+			err = d.Render(&buf)
+			return res(buf.String()+fmt.Sprintf("|fm=%v", d.FrontMatter()), err)
+		}
+		err := m.RenderBytes(&buf, []byte(c10Docs[doc]))
+		return res(buf.String(), err)
+	}
+	long := markdown.New(fsys)
+	for i, doc := range c.Seq {
+		got := render(long, doc)
+		want := render(markdown.New(fsys), doc)
+		ctx.Transition(1)
+		if got != want {
+			ctx.Violation("depends-on-earlier-renders", "markdown/"+c.Entry, doc, fmt.Sprintf("document %q rendered after %v on one Markdown engine:\n got %q\nwant %q (a new engine)", doc, c.Seq[:i], clip(got, 400), clip(want, 400)))
+			return
+		}
+	}
+	ctx.Outcome(strings.Join(c.Seq, ">"))
 }
 
 // runOrder: iterative deviation bounding over the dynamic map-iteration occurrences.
@@ -486,6 +554,21 @@ func init() {
 				for _, seq := range [][]string{{"later"}, {"earlier"}, {"later", "earlier"}, {"earlier", "later"}, {"much-earlier", "earlier"}, {"later", "later"}} {
 					emit(&c10Case{Part: "files", Prog: p.Name, Seq: seq})
 				}
+			}
+			for _, entry := range []string{"bytes", "load"} {
+				var rec func(seq []string)
+				rec = func(seq []string) {
+					if len(seq) >= 2 {
+						emit(&c10Case{Part: "markdown", Seq: append([]string(nil), seq...), Entry: entry})
+					}
+					if len(seq) == L+1 {
+						return
+					}
+					for _, d := range c10DocNames {
+						rec(append(seq, d))
+					}
+				}
+				rec(nil)
 			}
 			for _, entry := range []string{"", "vue", "fragment"} {
 				var rec func(seq []string)
